@@ -120,14 +120,15 @@ def ensure_facts(profiles=("dev",), repo=None):
             wall = _run_profile(repo, profile, outdir)
             with open(done, "w") as f:
                 json.dump({"wall_s": wall, "src_hash": h, "repo": repo}, f)
-        # prune old fact directories (keep the 6 most recent)
+        # prune old fact directories (keep the 12 most recent, and anything used in the last ten minutes)
         root = os.path.join(CACHE, "facts")
         ds = sorted(
             (d for d in os.listdir(root) if os.path.isdir(os.path.join(root, d))),
             key=lambda d: os.path.getmtime(os.path.join(root, d)),
         )
-        for d in ds[:-6]:
-            if d != h:
+        now = time.time()
+        for d in ds[:-12]:
+            if d != h and now - os.path.getmtime(os.path.join(root, d)) > 600:
                 shutil.rmtree(os.path.join(root, d), ignore_errors=True)
         os.utime(outdir, None)
         return outdir, h
